@@ -325,7 +325,12 @@ impl Check for DebugCheck {
     fn generate(&self, seed: u64, index: u64) -> J {
         // C09: one session in 30 is also compared at process level, `lace run` against
         // `lace debug` (the two arms of the front end never run in-process)
-        self.scenario(seed, index).to_json().set("world_b", self.id == "C09" && index % 30 == 11)
+        self.scenario(seed, index)
+            .to_json()
+            .set("world_b", self.id == "C09" && index % 30 == 11)
+            // C16: one session in 50 also runs in the shipped binary with its whole script in
+            // --command and a standard input that is not a pipe
+            .set("odd_stdin", self.id == "C16" && index % 50 == 21)
     }
     fn execute(&self, cap: &Capture, scenario: &J) -> Report {
         let Some(mut scn) = DebugScenario::from_json(scenario) else {
@@ -345,6 +350,9 @@ impl Check for DebugCheck {
         let mut report = session_report(self.id, cap, &scn);
         if self.id == "C09" && scenario.get_bool("world_b").unwrap_or(false) && report.violations.is_empty() && report.discarded.is_none() {
             c09_run_vs_debug(&scn, &mut report);
+        }
+        if self.id == "C16" && scenario.get_bool("odd_stdin").unwrap_or(false) && report.violations.is_empty() && report.discarded.is_none() {
+            c16_odd_stdin(&scn, &mut report);
         }
         report
     }
@@ -593,5 +601,61 @@ fn c09_run_vs_debug(scn: &DebugScenario, report: &mut Report) {
                 String::from_utf8_lossy(&b[at.saturating_sub(6).min(b.len())..(at + 14).min(b.len())])
             ),
         ));
+    }
+}
+
+/// C16 at process level: the whole script in `--command`, and a standard input that is a
+/// directory (every read fails), closed, or /dev/null. Whatever the session makes of that, it
+/// ends: the reference program ends, and a reader that cannot read is no reason to spin.
+fn c16_odd_stdin(scn: &DebugScenario, report: &mut Report) {
+    use crate::session::deliver;
+    use crate::world_b::{run_lace, OddStdin, Run, Scratch, ODD_STDIN};
+    if scn.program.uses_input {
+        return;
+    }
+    let scratch = Scratch::new("c16");
+    let asm = scratch.path("p.asm");
+    if std::fs::write(&asm, scn.program.render()).is_err() {
+        return;
+    }
+    let d = deliver(&scn.script, &Transport::Arg, 0);
+    for (kind, name) in [
+        (OddStdin::Directory(scratch.dir.clone()), "directory"),
+        (OddStdin::Closed, "closed"),
+        (OddStdin::DevNull, "dev-null"),
+    ] {
+        let mut args: Vec<std::ffi::OsString> = vec!["debug".into(), asm.clone().into_os_string()];
+        if scn.minimal {
+            args.push("--minimal".into());
+        }
+        if scn.stack {
+            args.push("-f".into());
+            args.push("stack".into());
+        }
+        if let Some(arg) = &d.arg {
+            args.push(format!("--command={}", arg).into());
+        }
+        ODD_STDIN.with(|s| *s.borrow_mut() = Some(kind));
+        let p = run_lace(
+            &scratch,
+            &Run {
+                args,
+                cwd: &scratch.dir,
+                stdin: b"",
+                plan: None,
+                watch: None,
+                rlimit_fsize: None,
+            },
+        );
+        report.count("processes", 1);
+        report.hit(&format!("fault:stdin_is_{}", name));
+        if p.hang {
+            report.violations.push(Violation::new(
+                "C16",
+                format!("C16/world-b/stdin={}/no-termination", name),
+                format!("`lace debug` with the whole script in --command and standard input {} did not end within 20 s", name),
+            ));
+            return;
+        }
     }
 }
